@@ -121,4 +121,161 @@ __CPROVER_assigns(self->position, self->write_size, g_size, g_nesc, g_src, g_esc
 /* [C05:str-reject]      */ __CPROVER_ensures(RET < 0 ==> ((NT == 0 && LASTC != '"') || (NT >= 1 && SEXTRA == 0 && (LASTC == 0 || (LASTC != '\\' && LASTC != '"' && g_size >= self->var->data_size))) || (NT >= 2 && SEXTRA == 1 && ABUF(self)[self->position - 2] == '\\' && (!V_ISESC(LASTC) || g_size >= self->var->data_size)) || (NT >= 2 && SEXTRA == 1 && ABUF(self)[self->position - 2] == '"' && (!V_ISTERM(LASTC) || g_size >= self->var->data_size))))
 ;
 
+/* ------------------------------------------------------------------------------------------------
+ * response formatting
+ * ---------------------------------------------------------------------------------------------- */
+#define ISFSM(f)      ((f) == CAT_FSM_TYPE_ATCMD || (f) == CAT_FSM_TYPE_UNSOLICITED)
+#define CAPF(s, f)    ((f) == CAT_FSM_TYPE_ATCMD ? CAP_AT(s) : CAP_UN(s))
+#define POSF(s, f)    ((f) == CAT_FSM_TYPE_ATCMD ? (s)->position : (s)->unsolicited_fsm.position)
+#define UBUF(s)       (((s)->desc->unsolicited_buf != NULL) ? (s)->desc->unsolicited_buf : &(s)->desc->buf[(s)->desc->buf_size >> 1])
+#define BUFF(s, f)    ((f) == CAT_FSM_TYPE_ATCMD ? ABUF(s) : UBUF(s))
+#define VARF(s, f)    ((f) == CAT_FSM_TYPE_ATCMD ? (s)->var : (s)->unsolicited_fsm.var)
+#define FMT_PRE(s, f) (ISFSM(f) && POSF(s, f) <= CAPF(s, f))
+/* frame of every formatter: the cursor of its machine and the half of its machine, nothing else */
+#define FMT_ASSIGNS \
+        fsm == CAT_FSM_TYPE_ATCMD : self->position; fsm == CAT_FSM_TYPE_UNSOLICITED : self->unsolicited_fsm.position; \
+        (fsm == CAT_FSM_TYPE_ATCMD && self->desc->unsolicited_buf != NULL) : __CPROVER_object_upto(self->desc->buf, self->desc->buf_size); \
+        (fsm == CAT_FSM_TYPE_ATCMD && self->desc->unsolicited_buf == NULL) : __CPROVER_object_upto(self->desc->buf, self->desc->buf_size >> 1); \
+        (fsm == CAT_FSM_TYPE_UNSOLICITED && self->desc->unsolicited_buf != NULL) : __CPROVER_object_upto(self->desc->unsolicited_buf, self->desc->unsolicited_buf_size); \
+        (fsm == CAT_FSM_TYPE_UNSOLICITED && self->desc->unsolicited_buf == NULL) : __CPROVER_object_upto(&self->desc->buf[self->desc->buf_size >> 1], self->desc->buf_size >> 1)
+#define OPOS          (fsm == CAT_FSM_TYPE_ATCMD ? OLD(self->position) : OLD(self->unsolicited_fsm.position))
+#define NPOS          POSF(self, fsm)
+#define FB            BUFF(self, fsm)
+#define PREFIX_KEPT   ((g_k < OPOS) ==> FB[g_k] == g_oldtext)
+
+static int print_nstring_to_buf(struct cat_object *self, const char *str, size_t len, cat_fsm_type fsm)
+__CPROVER_requires(FMT_PRE(self, fsm))
+__CPROVER_requires(g_k < POSF(self, fsm) ==> BUFF(self, fsm)[g_k] == g_oldtext)
+__CPROVER_assigns(FMT_ASSIGNS)
+/* [C03,C19:pn-refuse]   */ __CPROVER_ensures(RET == ((len >= CAPF(self, fsm) - OPOS) ? -1 : 0))
+/* [C19:pn-refuse-clean] */ __CPROVER_ensures(RET == -1 ==> NPOS == OPOS)
+/* [C03,C19:pn-append]   */ __CPROVER_ensures(RET == 0 ==> (NPOS == OPOS + len && NPOS < CAPF(self, fsm) && FB[NPOS] == 0))
+/* [C19:pn-text]         */ __CPROVER_ensures((RET == 0 && g_j < len) ==> FB[OPOS + g_j] == (uint8_t)str[g_j])
+/* [C19:pn-prefix]       */ __CPROVER_ensures(PREFIX_KEPT)
+;
+
+#define HEXCH(n)      ((uint8_t)((n) < 10 ? '0' + (n) : 'A' + ((n) - 10)))
+/* the canonical numerals the property text speaks of (written from the statement; width-bounded loops) */
+static _Bool s_is_decimal_of(const uint8_t *t, size_t n, unsigned long long mag)
+{
+        unsigned long long h = 0;
+        size_t i;
+        if (n < 1 || n > 10 || (n > 1 && t[0] == '0'))
+                return 0;
+        for (i = 0; i < 10; i++)
+                if (i < n) {
+                        if (!V_ISDIGIT(t[i]))
+                                return 0;
+                        h = h * 10ULL + (unsigned long long)(t[i] - '0');
+                }
+        return h == mag;
+}
+static _Bool s_is_hex_of(const uint8_t *t, size_t w, unsigned int v)
+{
+        size_t i;
+        for (i = 0; i < 8; i++)
+                if (i < w) {
+                        unsigned int nib = (v >> (4 * (w - 1 - i))) & 0xFu;
+                        if (t[i] != (uint8_t)(nib < 10 ? '0' + nib : 'A' + (nib - 10)))
+                                return 0;
+                }
+        return 1;
+}
+/* text t[0..n) is the numeral snprintf(fmt, v) must produce */
+static _Bool s_is_numeral(const uint8_t *t, size_t n, int kind, unsigned int v)
+{
+        switch (kind) {
+        case 0: return ((int)v < 0) ? (n >= 2 && t[0] == '-' && s_is_decimal_of(t + 1, n - 1, (unsigned long long)(-(long long)(int)v))) : s_is_decimal_of(t, n, v);
+        case 1: return s_is_decimal_of(t, n, v);
+        case 2: return n == 2 && s_is_hex_of(t, 2, v);
+        case 3: return n == 4 && t[0] == '0' && t[1] == 'x' && s_is_hex_of(t + 2, 2, v);
+        case 4: return n == 6 && t[0] == '0' && t[1] == 'x' && s_is_hex_of(t + 2, 4, v);
+        case 5: return n == 10 && t[0] == '0' && t[1] == 'x' && s_is_hex_of(t + 2, 8, v);
+        default: return 0;
+        }
+}
+static int s_fmt_kind(const char *f)
+{
+        if (f[0] == '%' && f[1] == 'd' && f[2] == 0) return 0;
+        if (f[0] == '%' && f[1] == 'u' && f[2] == 0) return 1;
+        if (f[0] == '%' && f[1] == '0' && f[2] == '2' && f[3] == 'X' && f[4] == 0) return 2;
+        if (f[0] == '0' && f[1] == 'x' && f[2] == '%' && f[3] == '0' && f[5] == 'X' && f[6] == 0)
+                return f[4] == '2' ? 3 : f[4] == '4' ? 4 : f[4] == '8' ? 5 : -1;
+        return -1;
+}
+
+static int print_format_num(struct cat_object *self, char *fmt, uint32_t val, cat_fsm_type fsm)
+__CPROVER_requires(FMT_PRE(self, fsm) && s_fmt_kind(fmt) >= 0 && (s_fmt_kind(fmt) < 2 || s_fmt_kind(fmt) == 5 || val <= (s_fmt_kind(fmt) == 4 ? 0xFFFFu : 0xFFu)))
+__CPROVER_requires(g_k < POSF(self, fsm) ==> BUFF(self, fsm)[g_k] == g_oldtext)
+__CPROVER_assigns(FMT_ASSIGNS)
+/* [C19:pf-retcode]      */ __CPROVER_ensures(RET == 0 || RET == -1)
+/* [C07,C19:pf-refuse-clean] */ __CPROVER_ensures(RET == -1 ==> NPOS == OPOS)
+/* [C03,C07:pf-append]   */ __CPROVER_ensures(RET == 0 ==> (NPOS > OPOS && NPOS < CAPF(self, fsm) && FB[NPOS] == 0))
+#ifndef PF_LIGHT
+/* [C07,C08:pf-numeral]  */ __CPROVER_ensures(RET == 0 ==> s_is_numeral(&FB[OPOS], NPOS - OPOS, s_fmt_kind(fmt), val))
+#else
+/* [C07:pf-hex2]         */ __CPROVER_ensures((RET == 0 && s_fmt_kind(fmt) == 2) ==> (NPOS == OPOS + 2 && FB[OPOS] == HEXCH((val >> 4) & 15) && FB[OPOS + 1] == HEXCH(val & 15)))
+#endif
+/* [C07,C19:pf-prefix]   */ __CPROVER_ensures(PREFIX_KEPT)
+;
+
+/* value a numeric variable must be reported as: its content, or zero when write-only (C08) */
+#define VF            VARF(self, fsm)
+#define WO(v)         ((v)->access == CAT_VAR_ACCESS_WRITE_ONLY)
+#define SZOK(v)       ((v)->data_size == 1 || (v)->data_size == 2 || (v)->data_size == 4)
+#define ULOADV(v)     ((v)->data_size == 1 ? (uint32_t)*(uint8_t *)(v)->data : (v)->data_size == 2 ? (uint32_t)*(uint16_t *)(v)->data : *(uint32_t *)(v)->data)
+#define SLOADV(v)     ((v)->data_size == 1 ? (int32_t)*(int8_t *)(v)->data : (v)->data_size == 2 ? (int32_t)*(int16_t *)(v)->data : *(int32_t *)(v)->data)
+#define FVAR_PRE(s, f) (FMT_PRE(s, f) && VARF(s, f)->data_size >= 1 && VARF(s, f)->data_size <= 64 && VARF(s, f)->access >= CAT_VAR_ACCESS_READ_WRITE && VARF(s, f)->access <= CAT_VAR_ACCESS_WRITE_ONLY)
+
+static int format_int_decimal(struct cat_object *self, cat_fsm_type fsm)
+__CPROVER_requires(FVAR_PRE(self, fsm))
+__CPROVER_requires(g_k < POSF(self, fsm) ==> BUFF(self, fsm)[g_k] == g_oldtext)
+__CPROVER_assigns(FMT_ASSIGNS)
+/* [C07:fi-size]         */ __CPROVER_ensures(!SZOK(VF) ==> (RET == -1 && NPOS == OPOS))
+/* [C07:fi-refuse-clean] */ __CPROVER_ensures(RET == -1 ==> NPOS == OPOS)
+/* [C03,C07:fi-cursor]   */ __CPROVER_ensures(RET == 0 ==> (SZOK(VF) && NPOS > OPOS && NPOS < CAPF(self, fsm) && FB[NPOS] == 0))
+/* [C07:fi-prefix]       */ __CPROVER_ensures(PREFIX_KEPT)
+;
+
+static int format_uint_decimal(struct cat_object *self, cat_fsm_type fsm)
+__CPROVER_requires(FVAR_PRE(self, fsm))
+__CPROVER_requires(g_k < POSF(self, fsm) ==> BUFF(self, fsm)[g_k] == g_oldtext)
+__CPROVER_assigns(FMT_ASSIGNS)
+/* [C07:fu-size]         */ __CPROVER_ensures(!SZOK(VF) ==> (RET == -1 && NPOS == OPOS))
+/* [C07:fu-refuse-clean] */ __CPROVER_ensures(RET == -1 ==> NPOS == OPOS)
+/* [C03,C07:fu-cursor]   */ __CPROVER_ensures(RET == 0 ==> (SZOK(VF) && NPOS > OPOS && NPOS < CAPF(self, fsm) && FB[NPOS] == 0))
+/* [C07:fu-prefix]       */ __CPROVER_ensures(PREFIX_KEPT)
+;
+
+static int format_num_hexadecimal(struct cat_object *self, cat_fsm_type fsm)
+__CPROVER_requires(FVAR_PRE(self, fsm))
+__CPROVER_requires(g_k < POSF(self, fsm) ==> BUFF(self, fsm)[g_k] == g_oldtext)
+__CPROVER_assigns(FMT_ASSIGNS)
+/* [C07:fh-size]         */ __CPROVER_ensures(!SZOK(VF) ==> (RET == -1 && NPOS == OPOS))
+/* [C07:fh-refuse-clean] */ __CPROVER_ensures(RET == -1 ==> NPOS == OPOS)
+/* [C03,C07:fh-cursor]   */ __CPROVER_ensures(RET == 0 ==> (SZOK(VF) && NPOS > OPOS && NPOS < CAPF(self, fsm) && FB[NPOS] == 0))
+/* [C07:fh-prefix]       */ __CPROVER_ensures(PREFIX_KEPT)
+;
+
+#define VBYTE(v, k)   (WO(v) ? 0 : ((uint8_t *)(v)->data)[k])
+static int format_buffer_hexadecimal(struct cat_object *self, cat_fsm_type fsm)
+__CPROVER_requires(FVAR_PRE(self, fsm))
+__CPROVER_requires(g_k < POSF(self, fsm) ==> BUFF(self, fsm)[g_k] == g_oldtext)
+__CPROVER_assigns(FMT_ASSIGNS)
+/* [C07:fb-retcode]      */ __CPROVER_ensures(RET == 0 || RET == -1)
+/* [C07:fb-length]       */ __CPROVER_ensures(RET == 0 ==> (NPOS == OPOS + 2 * VF->data_size && NPOS < CAPF(self, fsm) && FB[NPOS] == 0))
+/* [C07,C08:fb-text]     */ __CPROVER_ensures((RET == 0 && g_j < VF->data_size) ==> (FB[OPOS + 2 * g_j] == HEXCH(VBYTE(VF, g_j) >> 4) && FB[OPOS + 2 * g_j + 1] == HEXCH(VBYTE(VF, g_j) & 15)))
+/* [C07:fb-prefix]       */ __CPROVER_ensures(PREFIX_KEPT)
+;
+
+static int format_buffer_string(struct cat_object *self, cat_fsm_type fsm)
+__CPROVER_requires(FVAR_PRE(self, fsm))
+__CPROVER_requires(g_k < POSF(self, fsm) ==> BUFF(self, fsm)[g_k] == g_oldtext)
+__CPROVER_assigns(FMT_ASSIGNS)
+/* [C07:fs-retcode]      */ __CPROVER_ensures(RET == 0 || RET == -1)
+/* [C07:fs-quotes]       */ __CPROVER_ensures(RET == 0 ==> (NPOS >= OPOS + 2 && NPOS < CAPF(self, fsm) && FB[NPOS] == 0 && FB[OPOS] == '"' && FB[NPOS - 1] == '"'))
+/* [C08:fs-write-only]   */ __CPROVER_ensures((RET == 0 && WO(VF)) ==> NPOS == OPOS + 2)
+/* [C07:fs-prefix]       */ __CPROVER_ensures(PREFIX_KEPT)
+;
+
 #endif
